@@ -233,6 +233,29 @@ func checkC01(c *Ctx) {
 	c.Assume("atoms (coarsest partition of the code points respecting every literal and range of the grammar) are computed by the harness; each real transition function is evaluated on first/last/middle rune of every atom")
 	c.Set("rule", "seeded random lexical grammars (1-5 tokens, 0-2 ignored tokens, 0-3 regular definitions, 0-2 syntax-part string literals, nesting depth <= 3, runes straddling all UTF-8 widths); per grammar the WHOLE reachable product of the real DFA with the pattern semantics is explored by TLC (all texts), then real Scan runs on atom strings and random bytes are compared with the TLA+ reference tokenizer; distinct_nontrivial counts accepted grammars with >= 3 DFA states")
 	rng := rand.New(rand.NewSource(c.Seed))
+	// design level: gocc's own item-set construction (LexItems.tla) against the macro-expansion
+	// semantics (Regex.tla) on every tiny grammar with one regular definition: they agree on the
+	// conflation-free classes used below and differ outside (finding F4)
+	c.lexItemsDesign(2, c.pick(3, 4))
+	defer func() {
+		if c.Quick() {
+			return
+		}
+		// binding of LexItems.tla to the code on unrestricted regular definitions (informational:
+		// it says whether the model still describes the generator, not whether C01 holds)
+		var gs []*LexGrammar
+		for _, t := range tinyLexFamily(2, 3) {
+			if t.Class == "" && len(gs) < 300 {
+				gs = append(gs, t.G)
+			}
+		}
+		gs = append(gs, kfLex()...)
+		n, bad := c.lexItemsBinding(gs)
+		c.Set("lexitems_model_vs_real_generator", map[string]any{"grammars_with_unrestricted_regdefs": n, "disagreements": len(bad)})
+		if len(bad) > 0 {
+			fmt.Printf("NOTE: LexItems.tla no longer describes the generator on %d of %d grammars with unrestricted regular definitions, e.g.\n%s\n", len(bad), n, indent(bad[0]))
+		}
+	}()
 	for done := 0; done < total; done += bs {
 		n := bs
 		if total-done < n {
